@@ -51,20 +51,18 @@ Definition c12_nn_index (keys : list Z) : nat :=
 Definition c12_nn_row (tab : list (list Z)) (row : list Q) : list Q :=
   map (fun keys => nth (c12_nn_index keys) row 0%Q) tab.
 
-(* exactly one destination point *)
-Definition c12_single (tab : list (list Z)) : bool := Nat.eqb (length tab) 1.
-
-(* _nearest_neighbor(+ _uxda wrapper); data = one row per leading index *)
-Definition c12_nn (nn nf ne : Z) (t : c12_dists) (data : list (list Q)) : option (list (list Q)) :=
+(* _nearest_neighbor; data = one row per leading index *)
+(* `rank1`: the data array is one-dimensional.  In that case the gathered result is squeezed
+   ("case for 1D slice of data"), which for a single destination point leaves a 0-d array and the
+   wrapper raises *)
+Definition c12_nn (rank1 : bool) (nn nf ne : Z) (t : c12_dists) (data : list (list Q)) : option (list (list Q)) :=
   match data with
   | [] => None
   | r0 :: _ =>
       match c12_kind_by_length nn nf ne (Z.of_nat (length r0)) with
       | None => None
       | Some k =>
-          (* a single destination point: the tree query squeezes its answer to 0-d, the gather loses
-             the element dimension and the wrapper raises *)
-          if c12_single (c12_table t k) then None
+          if rank1 && Nat.eqb (length (c12_table t k)) 1 then None
           else Some (map (c12_nn_row (c12_table t k)) data)
       end
   end.
@@ -109,23 +107,24 @@ Definition c12_idw_weights (scale : positive) (p : nat) (eps : Q) (k : nat) (key
   let s := c12_qsum (map (fun x => c12_weight scale p eps (fst x)) nb) in
   map (fun x => (snd x, (c12_weight scale p eps (fst x) / s)%Q)) nb.
 
-(* _inverse_distance_weighted_remap: k > source_grid.n_node -> ValueError (whatever the kind is);
-   k <= 1 -> ValueError; the tree itself rejects k > number of elements of the kind *)
+(* _inverse_distance_weighted_remap: k > source_data.shape[-1] -> ValueError; k <= 1 -> ValueError;
+   then _remap_grid_parse (kind by trailing length) and the tree's own check k <= number of elements
+   of that kind.  Results are reshaped to one row per destination point (a single destination
+   point is answered like any other). *)
 Definition c12_idw_gen (point : positive -> nat -> Q -> nat -> list Q -> list Z -> Q)
            (nn nf ne : Z) (t : c12_dists) (data : list (list Q))
            (scale : positive) (p : nat) (eps : Q) (k : nat) : option (list (list Q)) :=
-  if (nn <? Z.of_nat k) || (Z.of_nat k <=? 1) then None
-  else match data with
-       | [] => None
-       | r0 :: _ =>
-           match c12_kind_by_length nn nf ne (Z.of_nat (length r0)) with
+  match data with
+  | [] => None
+  | r0 :: _ =>
+      if (Z.of_nat (length r0) <? Z.of_nat k) || (Z.of_nat k <=? 1) then None
+      else match c12_kind_by_length nn nf ne (Z.of_nat (length r0)) with
            | None => None
            | Some kd =>
                if c12_count nn nf ne kd <? Z.of_nat k then None
-               else if c12_single (c12_table t kd) then None    (* np.sum(weights, axis=1) on a 1-d array *)
                else Some (map (fun row => map (point scale p eps k row) (c12_table t kd)) data)
            end
-       end.
+  end.
 
 Definition c12_idw := c12_idw_gen c12_idw_point.
 Definition c12_idw_fast := c12_idw_gen c12_idw_point_fast.
